@@ -57,7 +57,7 @@ type c19Opt struct {
 
 type c19YOpt struct {
 	Name string   `json:"name"`
-	Kind string   `json:"kind"` // i f s b q n
+	Kind string   `json:"kind"` // i f s b q(sequence of strings) m(ixed sequence) n
 	N    uint64   `json:"n,omitempty"`
 	S    string   `json:"s,omitempty"`
 	B    bool     `json:"b,omitempty"`
@@ -559,7 +559,7 @@ func c19GenYOpt(r *sim.Rng, name string) c19YOpt {
 	case "read-delay", "timeout-ops":
 		y.Kind, y.N = "f", uint64(r.Intn(40)) // quarters of a second
 	case "transport-system-open-args":
-		y.Kind, y.L = "q", []string{"-o", "Foo=bar"}
+		y.Kind, y.L = "q", c19PickList(r)
 	}
 	return y
 }
@@ -588,9 +588,15 @@ func c19GenPlat(r *sim.Rng, kind, class string) (*c19Plat, []c19Opt) {
 			p.Options = append(p.Options, c19GenYOpt(r, n))
 		}
 	case "platform-illtyped": // outside the quantifier: one value of another YAML type
-		n := c19YNames[r.Intn(len(c19YNames)-1)]
+		n := c19YNames[r.Intn(len(c19YNames))]
 		y := c19GenYOpt(r, n)
 		switch y.Kind {
+		case "q":
+			if r.Bool() {
+				y.Kind = "m" // a sequence with a non-string element
+			} else {
+				y.Kind, y.S = "s", "-v"
+			}
 		case "i":
 			y.Kind, y.S = "s", "22"
 		case "f":
@@ -601,10 +607,10 @@ func c19GenPlat(r *sim.Rng, kind, class string) (*c19Plat, []c19Opt) {
 			y.Kind = "n" // accepted: the value is not looked at
 		}
 		p.Options = append(p.Options, y)
-	default: // random subset without the option known to panic, duplicates allowed
+	default: // random subset, duplicates allowed
 		n := r.Intn(10)
 		for i := 0; i < n; i++ {
-			p.Options = append(p.Options, c19GenYOpt(r, c19YNames[r.Intn(len(c19YNames)-1)]))
+			p.Options = append(p.Options, c19GenYOpt(r, c19YNames[r.Intn(len(c19YNames))]))
 		}
 	}
 	// user options: the same settings as the platform's (to see who wins) plus random others
@@ -752,10 +758,16 @@ func c19YAML(kind string, p *c19Plat) string {
 			case "b":
 				fmt.Fprintf(&sb, "      value: %v\n", y.B)
 			case "q":
-				sb.WriteString("      value:\n")
-				for _, s := range y.L {
-					fmt.Fprintf(&sb, "        - %s\n", yq(s))
+				if len(y.L) == 0 {
+					sb.WriteString("      value: []\n")
+				} else {
+					sb.WriteString("      value:\n")
+					for _, s := range y.L {
+						fmt.Fprintf(&sb, "        - %s\n", yq(s))
+					}
 				}
+			case "m":
+				sb.WriteString("      value:\n        - 1\n        - \"-v\"\n")
 			default:
 				sb.WriteString("      value:\n")
 			}
@@ -774,6 +786,8 @@ func c19EncYOpt(y c19YOpt) string {
 		return y.Name + "=b" + b2i(y.B)
 	case "q":
 		return y.Name + "=q" + hxStrs(y.L)
+	case "m":
+		return y.Name + "=m"
 	}
 	return y.Name + "=n"
 }
@@ -1134,16 +1148,6 @@ func runC19Case(id string, c *c19Case) {
 			}
 		}
 	}
-	if c.Plat != nil {
-		for _, y := range c.Plat.Options {
-			if y.Name == "transport-system-open-args" && status == "panic" {
-				cs.Oracle = "platform option transport-system-open-args with a YAML list of strings (its documented type) panics instead of taking effect"
-				cs.Sig = "C19:platform-open-args-panic"
-				emit(cs)
-				return
-			}
-		}
-	}
 	if status == "panic" {
 		cs.Oracle, cs.Sig = "constructor panicked", "C19:panic"
 		emit(cs)
@@ -1189,9 +1193,6 @@ func runC19Case(id string, c *c19Case) {
 			}
 			cs.Oracle = fmt.Sprintf("%s = %s, want %s (%s)", f, m[f], w, how)
 			cs.Sig = "C19:field:" + f
-			if c.Kind == "c" && f == "Logger" {
-				cs.Sig = "C19:netconf-logger-dropped"
-			}
 			break
 		}
 	}
